@@ -141,3 +141,36 @@ contract('gen_rnd_board', externals=EXT,
                              "forall(b, 0, _i1, 0 <= rewards[i][b] and rewards[i][b] <= max_reward)",
                              "forall(b, 0, _i1, loose_tiles[i][b] == 0 or loose_tiles[i][b] == 1)"])},
          props=['C15', 'C11'])
+
+# ------------------------------------------------------------------ main (C15: refused before anything is written; C17: the file name)
+from z3 import StringVal, Concat, IntToStr, fpMul, fpRoundToIntegral, fpToReal, RNE, FPVal, Float64, StringSort
+ARGS = REF('Args')
+FIELDS = {'seed': INT, 'width': INT, 'length': INT, 'max_reward': INT, 'prob_loose_tile': FP, 'prob_tile_break': FP,
+          'prob_robot_break': FP, 'prob_light_break': FP, 'force_down': BOOL}
+# PTS(p): the decimal string of p*100 rounded to the nearest integer -- "the probability as a whole percentage"
+PTS = spec('PTS', [FP], STR)
+_pct = lambda p: ToInt(fpToReal(fpRoundToIntegral(RNE(), fpMul(RNE(), p, FPVal(100.0, Float64())))))
+SPEC['PTS']['unfold'] = lambda p: PTS(p) == If(_pct(p) >= 0, IntToStr(_pct(p)), Concat(StringVal("-"), IntToStr(-_pct(p))))
+C['roberta_generator.prob_to_str']['ensures'] = ["result == PTS(prob)"]
+C['roberta_generator.prob_to_str']['props'] = ['C17', 'C15']
+STRI = lambda x: f"str({x})"
+A_ = "parsed_args"
+NAME = ("'inputs/robot_' + str({a}.seed) + '_' + 'w' + str({a}.width) + '_' + 'l' + str({a}.length) + '_' + 'r' + str({a}.max_reward) + '_' + "
+        "'rb' + PTS({a}.prob_robot_break) + '_' + 'lb' + PTS({a}.prob_light_break) + '_' + 'tb' + PTS({a}.prob_tile_break) + '_' + 'lt' + PTS({a}.prob_loose_tile) + "
+        "('_force_down' if {a}.force_down else '') + '.py'")
+ARGS_OK = [f"{A_}.seed >= 0", f"{A_}.width >= 1", f"{A_}.length >= 1", f"{A_}.max_reward >= 1"] + [f"0 < {A_}.{p} and {A_}.{p} < 1" for p in PROBS4]
+contract('init_parser', external=True, params={}, result=REF('Parser'), requires=[], ensures=[], modifies={}, props=[])
+contract('Parser.parse_args', external=True, params={'self': REF('Parser')}, result=ARGS, requires=[], ensures=[], modifies={}, props=[])
+contract('write_robots', external_for_main=True,
+         params={'file_name': STR, 'length': INT, 'width': INT, 'moves': LLI, 'rewards': LLI, 'loose_tiles': LLI, 'prob_tile_break': REAL,
+                 'prob_robot_break': REAL, 'prob_light_break': REAL},
+         requires=[], ensures=[], modifies={}, props=[])
+contract('main', float_mode='fp64', heap=list(FIELDS), class_module={'Parser': 'roberta_generator', 'Args': 'roberta_generator'},
+         params={}, locals={'parser': REF('Parser'), 'parsed_args': ARGS},
+         requires=[], ensures=ARGS_OK, modifies={},
+         # the only exception main lets escape is check_input's ValueError, and only for a parameter set outside the documented ranges
+         raises=dict(exc=['ValueError'], when=[], ensures=["not (" + " and ".join(f"({c})" for c in ARGS_OK) + ")"]),
+         call_asserts={'write_robots': ["file_name == " + NAME.format(a='AR')] + [c.replace(A_, 'AR') for c in ARGS_OK]
+                       + ["length == AR.length", "width == AR.width"]},
+         ghost_args={}, alias_for_asserts={'AR': 'parsed_args'},
+         props=['C15', 'C17', 'C11'])
